@@ -295,6 +295,15 @@ def run_case(s):
                               "detail": traceback.format_exc()[-1500:]}], "nontrivial": nt}
         d2 = json.loads(json.dumps(wntr.network.to_dict(wn2), default=str))
         diffs = compare(d1, d2, s["version"], units=s["units"])
+
+        def shape(c):
+            """nesting of a rule condition: the rule text has no parentheses, so the tree may come back regrouped"""
+            if hasattr(c, "_condition_1"):
+                return [type(c).__name__, shape(c._condition_1), shape(c._condition_2)]
+            return "leaf"
+        for name, ctl in wn.controls():
+            if name in wn2.control_name_list and shape(ctl.condition) != shape(wn2.get_control(name).condition):
+                diffs.append(("controls:condition:regrouped", "rule %s: condition tree %s comes back as %s" % (name, shape(ctl.condition), shape(wn2.get_control(name).condition))))
         seen = set()
         for k, w in diffs:
             if k not in seen:
